@@ -1,9 +1,54 @@
 import WM.Proto
-namespace WM.Drv.C04
-open WM.Proto
+import WM.Model.FSLock
+/-!
+Protocol handler of family `c04`.
 
-/-- Protocol handler of family `c04` (requests arrive without the family token). -/
+  tev   ::= a1 | a0 | r | (k op) | i | t | x          (logged writer lifetime)
+  step  ::= l | r | (k op) | i | t | x                (script)
+  c04 discipline (tev*)                  -> 1 | 0
+  c04 exec gen (ops*) ((step*)*) (sched*) -> holder gen (ops) (commits) (failed*) (holds*)
+-/
+namespace WM.Drv.C04
+open WM.Proto WM.Lock
+
+def tev? : SExp → Option TEv
+  | .atom "a1" => some (.acquire true)
+  | .atom "a0" => some (.acquire false)
+  | .atom "r" => some .readToc
+  | .atom "i" => some .io
+  | .atom "t" => some .writeToc
+  | .atom "x" => some .release
+  | .list [.atom "k", op] => op.nat?.map .work
+  | _ => none
+
+def step? : SExp → Option Step
+  | .atom "l" => some .tryLock
+  | .atom "r" => some .readToc
+  | .atom "i" => some .io
+  | .atom "t" => some .writeToc
+  | .atom "x" => some .release
+  | .list [.atom "k", op] => op.nat?.map .work
+  | _ => none
+
 def handle : List SExp → String
+  | [.atom "discipline", evs] =>
+    match evs.listOf? tev? with
+    | some l => showBool (TraceDiscipline l)
+    | none => "bad-op"
+  | [.atom "script-ok", st] =>
+    match st.listOf? step? with
+    | some l => showBool (LockDiscipline l)
+    | none => "bad-op"
+  | [.atom "exec", g, ops, scripts, sched] =>
+    match g.nat?, ops.natList?, scripts.listOf? (SExp.listOf? step?), sched.natList? with
+    | some g0, some o0, some scs, some sc =>
+      let arr := scs.toArray
+      let s := exec (init ⟨g0, o0⟩ fun w => arr.getD w []) sc
+      let ws := List.range arr.size
+      s!"{showOpt toString s.holder} {s.toc.gen} {showNatList s.toc.ops} {showNatList s.commits} " ++
+        showList (fun w => showBool (s.ws w).failed) ws ++ " " ++
+        showList (fun w => showBool (s.ws w).holds) ws
+    | _, _, _, _ => "bad-op"
   | _ => "bad-op"
 
 end WM.Drv.C04
